@@ -75,6 +75,14 @@ func init() {
 func (c *contractOp) Explain() (string, []model.VectorOperator) { return c.next.Explain() }
 func (c *contractOp) GetPool() *model.VectorPool                { return c.next.GetPool() }
 
+func deepCopySeries(s []labels.Labels) []labels.Labels {
+	out := make([]labels.Labels, len(s))
+	for i := range s {
+		out[i] = s[i].Copy()
+	}
+	return out
+}
+
 func sameSeries(a, b []labels.Labels) bool {
 	if len(a) != len(b) {
 		return false
@@ -101,7 +109,7 @@ func (c *contractOp) Series(ctx context.Context) ([]labels.Labels, error) {
 		contractReport("%s: Series() changed between calls (%d -> %d series)", c.desc, len(c.series), len(s))
 	}
 	if !c.hasSeries {
-		c.series = append([]labels.Labels(nil), s...)
+		c.series = deepCopySeries(s)
 		c.hasSeries = true
 	}
 	return s, nil
@@ -124,6 +132,16 @@ func (c *contractOp) Next(ctx context.Context) ([]model.StepVector, error) {
 	}
 	if batch == nil {
 		c.ended = true
+		// the series list must still be what it was when it was first handed out - also when
+		// somebody wrote through the label slices it shares with its consumers
+		if c.hasSeries {
+			c.mu.Unlock()
+			s, serr := c.next.Series(ctx)
+			c.mu.Lock()
+			if serr == nil && !sameSeries(c.series, s) {
+				contractReport("%s: the series list changed during the query (label sets rewritten in place)", c.desc)
+			}
+		}
 		return nil, nil
 	}
 	if c.ended {
@@ -141,7 +159,7 @@ func (c *contractOp) Next(ctx context.Context) ([]model.StepVector, error) {
 		s, serr := c.next.Series(ctx)
 		c.mu.Lock()
 		if serr == nil && !c.hasSeries {
-			c.series = append([]labels.Labels(nil), s...)
+			c.series = deepCopySeries(s)
 			c.hasSeries = true
 		}
 	}
